@@ -115,6 +115,16 @@ CHECKS = {
             "Input domain: states that exist in the schema; 'index S' parameters get the machine's ordered names; IsTime/WasTime get times of "
             "matching length. Deny-list and uncallable signatures are counted in the evidence.",
             "reflection-driven property-based testing (rapid) + native go fuzzing of the algebra", "DESIGN.md §5 C20"),
+    "C19": ("exploration",
+            "Every exported schema variable found by a static scan of the module (regenerated on each run, so new schemas are included) is checked "
+            "statically (Parse, only defined or predefined-global states referenced, no Require cycle, no Require-Remove conflict, agreement with "
+            "the typed name list via NewCommon) and dynamically: breadth-first search over every active set reachable from the empty machine by "
+            "Add1/Remove1 with the real machine as the transition function, asserting Require closure and at-most-one-active for every group "
+            "of mutually Removing states (from relations and from exported Groups). Exhaustive on the relational core under the frontier cap "
+            "(per-schema numbers in the evidence), bounded BFS + random walks otherwise.",
+            "Mixin schemas that reference predefined global states (Start, Exception, ...) they do not define are explored merged with those "
+            "states, as their documentation requires. Unimportable schemas are listed as skipped.",
+            "bounded exhaustive state-space enumeration with the real machine as transition function + rapid random walks", "DESIGN.md §5 C19"),
 }
 
 NOT_YET = "check not built yet in this session (planned, see DESIGN.md §9)"
